@@ -2,31 +2,37 @@
 (* Validates event traces recorded from real ffi.callback() objects against the property machine
    ClosuresIdeal.  Addresses are renamed injectively to small integers by the recorder (an
    existential binding: only their equality matters).  One verdict per trace: "ok", or the event
-   whose guard (= clause of C29) failed and its position. *)
+   whose guard (= clause of C29) failed and its position.  Invocations observed in two steps
+   (begin ... events inside the callback's function ... end) keep the stack of ClosuresIdeal. *)
 EXTENDS ClosuresIdeal, Json, IOUtils, TLC
 VARIABLES k, i, bad, reported
 Traces == JsonDeserialize(IOEnv.TRACE_FILE)
-tvars == <<live, last, k, i, bad, reported>>
+tvars == <<live, own, stack, last, k, i, bad, reported>>
 
 TInit == IInit /\ k \in 1..Len(Traces) /\ i = 1 /\ bad = "" /\ reported = FALSE
 
 Guard(e) == CASE e.ev = "create" -> CreateG(e.c, e.a)
               [] e.ev = "drop"   -> DropG(e.c)
               [] e.ev = "call"   -> CallG(e.c, e.ran, e.sent, e.recv, e.ret, e.exp)
+              [] e.ev = "begin"  -> BeginG(e.c, e.ran, e.sent, e.recv)
+              [] e.ev = "end"    -> EndG(e.c, e.how, e.herr, e.ret, e.exp)
               [] OTHER -> FALSE
-Effect(e) == CASE e.ev = "create" -> CreateE(e.c, e.a)
+Effect(e) == CASE e.ev = "create" -> CreateE2(e.c, e.a, e.errv, e.oe)
                [] e.ev = "drop"   -> DropE(e.c)
                [] e.ev = "call"   -> CallE(e.c)
+               [] e.ev = "begin"  -> BeginE(e.c)
+               [] e.ev = "end"    -> EndE(e.c)
 
 Consume == /\ i <= Len(Traces[k]) /\ bad = ""
            /\ LET e == Traces[k][i] IN
                 IF Guard(e) THEN Effect(e) /\ i' = i + 1 /\ UNCHANGED bad
-                ELSE bad' = e.ev /\ UNCHANGED <<live, i>>
+                ELSE bad' = (IF e.ev = "end" /\ ~EndDomain(e.c) THEN "end-unnested" ELSE e.ev)
+                     /\ UNCHANGED <<live, own, stack, i>>
            /\ UNCHANGED <<last, k, reported>>
 
 Report == /\ (i > Len(Traces[k]) \/ bad # "") /\ ~reported
           /\ PrintT(<<"VERDICT", k, IF bad # "" THEN bad ELSE "ok", i>>)
-          /\ reported' = TRUE /\ UNCHANGED <<live, last, k, i, bad>>
+          /\ reported' = TRUE /\ UNCHANGED <<live, own, stack, last, k, i, bad>>
 
 TNext == Consume \/ Report
 TSpec == TInit /\ [][TNext]_tvars
